@@ -209,6 +209,26 @@ Theorem C04_stdvar_exact : forall vs, vs <> [] ->
 Proof. exact RangeArithProofs.gacc_variance_exact. Qed.
 Print Assumptions C04_stdvar_exact.
 
+(* quantile: the accumulator collects the group's samples and sorts them (RangeArith.gquantile, the kernel
+   the correspondence compares with the real accumulator on floats). On exact numbers its value is a
+   function of the multiset of the samples: the order in which the series arrive does not matter. *)
+From Verif Require BucketProofs QuantileProofs.
+Theorem C04_quantile_independent_of_sample_order : forall (pinf ninf q : Qcanon.Qc) l l',
+  Permutation.Permutation l l' ->
+  RangeArith.gquantile Qcanon.Qc BucketProofs.qcops pinf ninf q l = RangeArith.gquantile Qcanon.Qc BucketProofs.qcops pinf ninf q l'.
+Proof. exact QuantileProofs.quantile_order_independent. Qed.
+Print Assumptions C04_quantile_independent_of_sample_order.
+
+Theorem C04_quantile_order_independent_generic : forall (V : Type) (o : RangeArith.ops V),
+  (forall a, RangeArith.isnan o a = false) ->
+  (forall a, RangeArith.ltb o a a = false) ->
+  (forall a b c, RangeArith.ltb o a b = true -> RangeArith.ltb o b c = true -> RangeArith.ltb o a c = true) ->
+  (forall a b, RangeArith.ltb o a b = false -> RangeArith.ltb o b a = false -> a = b) ->
+  forall pinf ninf q l l', Permutation.Permutation l l' ->
+  RangeArith.gquantile V o pinf ninf q l = RangeArith.gquantile V o pinf ninf q l'.
+Proof. exact QuantileProofs.gquantile_perm. Qed.
+Print Assumptions C04_quantile_order_independent_generic.
+
 (* PARTIAL. Proved for every accumulator (sum, min, max, avg, count, group,
    stddev, stdvar, quantile are instances of [empty]/[add]): grouping, per-step
    membership, reset locality, parameter taken per step; for topk/bottomk the
